@@ -90,6 +90,10 @@ def run_property(prop, a, seed, t0):
     # an obligation that already fails with a listed finding is not additionally 'undecided' on its other paths
     known_keys = {k for kf, k, vc in known_hits}
     undecided = [u for u in undecided if not (len(u) > 2 and u[2] in known_keys)]
+    can_checked = sum(r.get("canaries", {}).get("checked", 0) for r in results)
+    can_vacuous = sum(r.get("canaries", {}).get("vacuous", 0) for r in results)
+    if can_vacuous:
+        undecided.append(("canary", f"{can_vacuous} sampled discharged VCs hold only because their path condition is unsatisfiable (vacuity)"))
     for key, vcs in covers.items():
         if "/cover:raises-" in key[1]:
             continue  # an exceptional exit that is never taken is not vacuity
@@ -178,7 +182,7 @@ def run_property(prop, a, seed, t0):
     for key, vcs in list(obligations.items())[:6]:
         samples.append({"obligation": f"{key[0]}::{key[1]}", "paths": len(vcs), "status": sorted({v['status'] for v in vcs}), "vc_size": max(v["size"] for v in vcs)})
     n_obl = len(obligations)
-    known_obl = {(k[0], vc["name"]) for kf, k, vc in known_hits}
+    known_obl = {(k[0], vc["name"]) for kf, k, vc in known_hits if (k[0], vc["name"]) in obligations}
     evidence = {
         "property_id": prop,
         "tier": a.tier if a.tier in ("quick", "thorough") else "quick",
@@ -189,6 +193,7 @@ def run_property(prop, a, seed, t0):
             "discharged": n_discharged,
             "vcs_total": sum(len(v) for v in obligations.values()),
             "covers": len(covers),
+            "vacuity_canaries": {"sampled_discharged_vcs_rechecked_for_satisfiable_premises": can_checked, "vacuous": can_vacuous},
             "checker_cmd": f"bin/check {prop} --tier {a.tier}",
             "trusted_base": meta.get("trusted_base", []),
             "by_backend": by_backend,
